@@ -16,7 +16,7 @@ EXPLANATION = (
     "taken from the object's own 'signed' assertion, key). C09.4: threshold default = unwrap_or(threshold, len(keys)); the counter "
     "starts at 0 and is incremented only on the passing edge of the per-key check; Ok(true) is reachable exactly for count >= threshold "
     "(ordering table over count <,=,> threshold); Ok(false) only after the key list is exhausted. C09.5: each verify_* wrapper returns "
-    "Ok only on the true edge of its has_* and Err otherwise. C09.6: writer and reader both use the 'signed' known value. C09.8: every verify* entry point (and unseal) has each success exit dominated by a positive verdict on self or by the success edge of another verify* call on self. C09.9: add_signatures / add_signatures_opt are left folds of the single-signer writer over the accumulated envelope. Does not "
+    "Ok only on the true edge of its has_* and Err otherwise. C09.6: writer and reader both use the 'signed' known value. C09.8 (also: a *_returning_metadata entry point hands back the matcher's result for the caller's key and no other lookup of signature objects): every verify* entry point (and unseal) has each success exit dominated by a positive verdict on self or by the success edge of another verify* call on self. C09.9: add_signatures / add_signatures_opt are left folds of the single-signer writer over the accumulated envelope. Does not "
     "decide the signature schemes themselves ('under no other key')."
     " C09.10: sink pairing and action arms (C02.1 / C02.2) - the obscured form of a part declares the part's own digest, so signatures keep verifying.")
 TRUSTED = ['Signer::sign_with_options / Verifier::verify implement their schemes over the given message bytes']
